@@ -77,6 +77,33 @@ theorem model_is_stateless (tbl : Nat → Bool) (s₁ s₂ : TokStream) (fuel : 
     (match parseProgram s₂ fuel with | .ok r => some (printProgram tbl r.program compact allParens) | _ => none) := by
   subst h; rfl
 
+/-- (1) on the fragment of `C02.roundtrip_partial` (every node kind except comments, outside the recorded classes),
+relative to `C02.PrintLex` (lexing the printed bytes of a fragment program gives its token rendering — the link the
+`printtokens` suite checks on the real printer and lexer): the formatted text of a fragment program is a FIXPOINT of
+formatting — it parses (for every sufficiently large fuel) to a program whose formatted text is the same bytes.  The
+shape of `IdempotentAt` with the fuel of the second parse chosen large enough; corollary of the round trip (the re-parsed
+program is the original). -/
+theorem idempotent_partial_lex (lex : Bytes → TokStream) (tbl : Nat → Bool) (hlex : C02.PrintLex lex tbl)
+    (prog : NList) (compact : Bool) (hfrag : PrintTokens.fragProg compact false prog = true) :
+    ∃ out, printProgram tbl prog compact false = .ok out ∧
+      ∃ F, ∀ fuel', F ≤ fuel' → ∃ prog', C02.valid (parseProgram (lex out) fuel') = some prog' ∧
+        printProgram tbl prog' compact false = .ok out := by
+  obtain ⟨out, hout, hk⟩ := hlex compact prog hfrag
+  obtain ⟨F, hF⟩ := C02.roundtrip_partial compact false prog hfrag (lex out) hk
+  exact ⟨out, hout, F, fun fuel' h => ⟨prog, by rw [hF fuel' h]; rfl, hout⟩⟩
+
+/-- the same at the token level, with no lexer: formatting, rendering as tokens and parsing any number of times stays
+at the same program and the same bytes (`n` passes) -/
+theorem idempotent_tokens (tbl : Nat → Bool) (prog : NList) (compact : Bool)
+    (hfrag : PrintTokens.fragProg compact false prog = true) (out : Bytes) (hout : printProgram tbl prog compact false = .ok out) :
+    ∃ F, ∀ fuel, F ≤ fuel → ∀ r, parseProgram (PrintTokens.streamOf (PrintTokens.progToks compact false prog)) fuel = .ok r →
+      printProgram tbl r.program compact false = .ok out := by
+  obtain ⟨F, hF⟩ := C02.roundtrip_streamOf compact false prog hfrag
+  refine ⟨F, fun fuel h r hr => ?_⟩
+  rw [hF fuel h] at hr
+  cases hr
+  exact hout
+
 /-- `a; -b`: the formatted text `a⏎-b⏎` parses to ONE statement, whose formatting is `a - b⏎` (replayed on
 the real code by the `format03` known-finding witness) -/
 theorem witness_not_idempotent :
